@@ -1,2 +1,3 @@
 import Driver.Util
 import Driver.Ring
+import Driver.Pool
